@@ -852,6 +852,10 @@ func modeTotal(seed uint64, n int, out *sx.Out) {
 		out.Begin(map[string]interface{}{"mode": "modeTotal", "case": i, "call": "rule.ToCommandLine(wire, false)", "wire_hex": hex.EncodeToString(m)})
 		oc, detail := guarded(func() (string, error) { return rule.ToCommandLine(rule.WireFormat(m), false) })
 		out.Case(fmt.Sprintf("TWire %s %s", sx.Hx(m), oc), map[string]interface{}{"case": i, "mutation_kind": kind, "len": len(m), "outcome": oc, "detail": detail}, "wire/"+oc, oc == "OOk" || oc == "OErr")
+		// the same bytes listed with ids and codes resolved to names: another printer for the same values (totality only)
+		out.Begin(map[string]interface{}{"mode": "modeTotal", "case": i, "call": "rule.ToCommandLine(wire, true)", "wire_hex": hex.EncodeToString(m)})
+		oc2, detail2 := guarded(func() (string, error) { return rule.ToCommandLine(rule.WireFormat(m), true) })
+		out.Case(fmt.Sprintf("TLine %s %s", cs("resolveIds=true "+hex.EncodeToString(m[:min(len(m), 64)])), oc2), map[string]interface{}{"case": i, "resolveIds": true, "wire_hex": hex.EncodeToString(m), "outcome": oc2, "detail": detail2}, "wire-resolved/"+oc2, oc2 != "OPanic")
 	}
 	// Rule values built directly
 	for i := 0; i < n/3; i++ {
@@ -963,6 +967,40 @@ func modeTotal(seed uint64, n int, out *sx.Out) {
 					continue // the value parsers do not depend on the list; the admission rules do: a sample
 				}
 				out.Case(fmt.Sprintf("TVal %s %s %s %s %s %s", cs(list), cs(f), cs(op), cs(rhs), oc, bs), map[string]interface{}{"list": list, "field": f, "op": op, "rhs": rhs, "outcome": oc, "detail": detail}, "value-sweep/"+oc, oc != "OPanic")
+			}
+		}
+	}
+	// the value word of every numeric field of a few typical rules replaced by the values printers index tables with:
+	// every S_IFMT nibble and its neighbours, every perm value, errno and record-type table edges; both printers
+	for _, base := range []string{
+		"-a always,exit -F filetype=file -F perm=r -F exit=-2 -F msgtype=1300 -F uid=0 -F a0=1 -S open -k k",
+		"-a always,exit -F arch=b64 -S 2 -F success=1 -F auid!=4294967295 -F sessionid=3 -F obj_uid=1",
+		"-w /etc/passwd -p wa -k w",
+	} {
+		b, err := buildLine(base)
+		if err != nil {
+			continue
+		}
+		nf := int(binary.LittleEndian.Uint32(b[8:]))
+		var vals []uint32
+		for k := uint32(0); k < 16; k++ {
+			vals = append(vals, k<<12, k<<12+1, k)
+		}
+		vals = append(vals, 16, 17, 31, 32, 0x7fff, 0x8000, 0xffff, 0x10000, 0x7fffffff, 0x80000000, 0xfffffffe, 0xffffffff, 132, 133, 134, 4095, 4096, 1099, 1100, 2999, 3000)
+		for k := 0; k < nf && k < 64; k++ {
+			for _, v := range vals {
+				m := append([]byte(nil), b...)
+				binary.LittleEndian.PutUint32(m[4*(131+k):], v)
+				for _, resolve := range []bool{false, true} {
+					resolve := resolve
+					out.Begin(map[string]interface{}{"mode": "modeTotal", "call": fmt.Sprintf("rule.ToCommandLine(wire, %v)", resolve), "base": base, "field_index": k, "value_word": v, "wire_hex": hex.EncodeToString(m)})
+					oc, detail := guarded(func() (string, error) { return rule.ToCommandLine(rule.WireFormat(m), resolve) })
+					if resolve {
+						out.Case(fmt.Sprintf("TLine %s %s", cs(fmt.Sprintf("resolveIds=true field %d value %d of %s", k, v, base)), oc), map[string]interface{}{"line": base, "field_index": k, "value_word": v, "resolveIds": true, "outcome": oc, "detail": detail}, "value-word-sweep-resolved/"+oc, oc != "OPanic")
+					} else {
+						out.Case(fmt.Sprintf("TWire %s %s", sx.Hx(m), oc), map[string]interface{}{"line": base, "field_index": k, "value_word": v, "outcome": oc, "detail": detail}, "value-word-sweep/"+oc, oc == "OOk" || oc == "OErr")
+					}
+				}
 			}
 		}
 	}
